@@ -82,8 +82,9 @@ func (x *restrictor) restrictW(st sel, t *idlgen.RType, ov, nv *values.Value, en
 				if !keep {
 					sub = sel{all: true} // a filtered required field is written with its current value
 				}
-				if own != nil && own.tree != nil {
-					sub = rootSel(own.black, own.tree) // field_mask_halfway: the child's own mask is kept
+				if own != nil {
+					// field_mask_halfway: the child's own mask is kept (also one built from NO path: a non-nil mask that passes everything)
+					sub = rootSel(own.black, own.tree)
 				}
 				out.E[i] = x.restrictW(sub, f.Type, sub1(i), nv.E[i], nil)
 			case f.Req == idlgen.Required: // zero_required
@@ -261,6 +262,36 @@ func (x *restrictor) zeroStructNonRequired(st sel, t *idlgen.RType, nv *values.V
 	return false
 }
 
+// entersUnionElems: does some path of the tree step into a list/set/map whose ELEMENT type is a union or exception? The library
+// refuses such a path ("unspported type for fieldmask": switchFt gives Invalid for unions and exceptions).
+func entersUnionElems(s *idlgen.Schema, t *idlgen.RType, n *mnode) bool {
+	if n == nil || n.leaf {
+		return false
+	}
+	switch t.Kind {
+	case idlgen.RStruct:
+		st := s.Structs[t.Sidx]
+		for _, k := range n.kids {
+			if i := st.FieldByID(int16(k.id)); i >= 0 && entersUnionElems(s, st.Fields[i].Type, k.sub) {
+				return true
+			}
+		}
+	case idlgen.RList, idlgen.RSet, idlgen.RMap:
+		if t.Elem.Kind == idlgen.RStruct && s.Structs[t.Elem.Sidx].Kind != 's' {
+			return true
+		}
+		if n.star != nil && entersUnionElems(s, t.Elem, n.star) {
+			return true
+		}
+		for _, k := range n.kids {
+			if entersUnionElems(s, t.Elem, k.sub) {
+				return true
+			}
+		}
+	}
+	return false
+}
+
 // explain walks expected and observed values in parallel and names the first difference by its cause.
 func (x *restrictor) explain(st sel, t *idlgen.RType, nv, exp, got *values.Value, write bool, env []envMask) string {
 	if values.EqualCanon(exp, got) {
@@ -315,7 +346,7 @@ func (x *restrictor) explain(st sel, t *idlgen.RType, nv, exp, got *values.Value
 		isUnion := f.Type.Kind == idlgen.RStruct && x.s.Structs[f.Type.Sidx].Kind != 's'
 		if x.o.halfway && f.Type.Kind == idlgen.RStruct && (keep || f.Req == idlgen.Required) {
 			for k := range env {
-				if env[k].pos == i && env[k].tree != nil {
+				if env[k].pos == i {
 					// the child's own mask is the one in force
 					if r := x.explain(rootSel(env[k].black, env[k].tree), f.Type, nv.E[i], exp.E[i], got.E[i], write, nil); r != "" {
 						return r
@@ -325,7 +356,7 @@ func (x *restrictor) explain(st sel, t *idlgen.RType, nv, exp, got *values.Value
 			}
 		}
 		switch {
-		case isUnion && !st.black && keep && values.EqualCanon(got.E[i], f.Initial()):
+		case isUnion && !st.black && keep && sub.all: // absent, or (zero_required) replaced by the zero value
 			return "union-field-white-unselectable"
 		case isUnion && st.black && !keep:
 			return "union-field-black-unfilterable"
